@@ -1,6 +1,42 @@
-(* Properties/C06.v — placeholder until the proofs land. *)
+(* Properties/C06.v — server robustness: bounded buffering, termination, refusal before reading. *)
 From GoImap.Base Require Import Bytes.
-From GoImap.Model Require Import Wire ServerConn ServerFrame.
-Theorem C06_placeholder : True.
-Proof. exact I. Qed.
-Print Assumptions C06_placeholder.
+From GoImap.Model Require Import NumSet MatchList Utf7 Wire ServerConn ServerFrame.
+From GoImap.Proofs Require Import WireSpec WireProofs ServerFrameSpec ServerFrameProofs.
+Open Scope N_scope.
+
+Theorem C06_literal_buffer_cap : forall s v rest k, s_literal s = SOk v rest k -> (length v <= 4096)%nat.
+Proof. exact literal_buffer_cap. Qed.
+Print Assumptions C06_literal_buffer_cap.
+
+Theorem C06_serve_terminates : forall k cfg f total s, (length s < k)%nat ->
+  serve_bytes k cfg f total s = serve_bytes (S (length s)) cfg f total s.
+Proof. exact serve_fuel_enough. Qed.
+Print Assumptions C06_serve_terminates.
+
+Theorem C06_append_limit_refused : forall cfg c name s h, bytes_eqb (ascii_upper name) (s2b "APPEND") = true ->
+  handle_cmd cfg c name s = h -> h_cls h = 0 ->
+  forall m fl d p, In (SAppend m fl d p) (h_calls h) -> N.of_nat (length p) <= APPEND_LIMIT.
+Proof. exact append_limit_refused. Qed.
+Print Assumptions C06_append_limit_refused.
+
+(* list nesting is bounded: at or above the cap the generic reader reports an error (C01) *)
+Theorem C06_nesting_bounded : forall cfg v segs rest fuel, wf_wval v -> (MAX_DEPTH <= wdepth v)%nat ->
+  enc_val cfg v = Some segs ->
+  discard_value fuel (peer_server cfg) 0 (flatten segs ++ rest) = DErr.
+Proof. exact value_too_deep. Qed.
+Print Assumptions C06_nesting_bounded.
+
+Theorem C06_refused_nonsync_closes : forall cfg f total s tag r1 r2 name r3,
+  dec_atom s = DOk tag r1 -> dec_sp r1 = DOk tt r2 -> dec_atom r2 = DOk name r3 ->
+  bytes_eqb (ascii_upper name) (s2b "UID") = false ->
+  let h := handle_cmd cfg (fs_conn f) name r3 in
+  (h_close h = true \/ (snd (discard_line (h_crlf h) (h_rest h)) = true /\ h_cls h <> 0)) ->
+  snd (read_command cfg f total s) = None /\
+  exists outs, fs_out (fst (read_command cfg f total s)) = OBye :: outs.
+Proof. exact refused_nonsync_closes. Qed.
+Print Assumptions C06_refused_nonsync_closes.
+
+Example C06_nonvacuous :
+  s_literal (s2b "{3}" ++ CRLF_ ++ s2b "abc x") = SOk (s2b "abc") (s2b " x") 1%nat /\
+  s_literal (s2b "{4097+}" ++ CRLF_ ++ s2b "abc") = SErr 4 true O (s2b "abc").
+Proof. vm_compute. split; reflexivity. Qed.
